@@ -20,6 +20,7 @@ def docfn():
 class K:
     """class doc"""
     attr = {P0}
+    ann_attr: {P21} = 0
     def m(self, a={P1}):
         """method doc"""
         emit(('m', a, {P2}))
@@ -39,7 +40,7 @@ def outer(p={P3}):
 LITMOD = {P11}
 if LITMOD is not Ellipsis:
     z = {P12}
-emit(('mod', K.attr, K().m(), outer(), LITMOD, z, docfn(), docfn.__doc__))
+emit(('mod', K.attr, K().m(), outer(), LITMOD, z, docfn(), docfn.__doc__, sorted(K.__annotations__.items())))
 match LITMOD:
     case {P13}:
         emit('matched')
@@ -49,7 +50,7 @@ class S:
     __slots__ = ({P14}, 'other_slot')
 emit(('slots', S.__slots__))
 '''
-NPLACES = 21
+NPLACES = 22
 LITS = {
     'str': ("'hello world'", 'hello world', lambda i: "'fill%d'" % i),
     'bytes': ("b'hello world'", b'hello world', lambda i: "b'fill%d'" % i),
@@ -76,6 +77,9 @@ def build(uses, lit, spell='plain'):
             vals['P14'] = "'slot_a'"           # __slots__ entries must be strings
         elif i == 13:
             vals['P13'] = plain if i in uses else '12345'
+        elif i == 21:
+            # an annotation that is kept as text: an expression there would be folded (annotations are a reflective view), so always the plain literal
+            vals['P21'] = plain if i in uses else fill(i)
         elif i == 17:
             vals['P17'] = text if (i in uses and lit == 'str') else "'docfn doc'"
         else:
@@ -134,6 +138,7 @@ def places(tree):
         raise LookupError('emit')
     out = {}
     out[0] = assigns(K.body, True)[0].value
+    out[21] = [st for st in K.body if isinstance(st, ast.AnnAssign)][0].annotation
     out[1] = m.args.defaults[0]
     out[2] = emit_call(m.body).args[0].elts[2]
     out[3] = outer.args.defaults[0]
